@@ -27,7 +27,7 @@ EXPLANATION = ('theorems C16_* (coq/props/C16.v) hold for all lists over any typ
                '_ulist.py / _dictattr.py / _dict.py on the exhaustive small scopes above')
 TRUSTED = ['modelled, not verified: CPython dict (insertion-ordered map with in-place assignment), set iteration order (any permutation; proved irrelevant), '
            'copy.copy of a dict subclass (fresh object with the same items), inspect-based getargs (names of positional parameters)']
-ASSUMPTIONS = ['elements are hashable with a lawful == (no NaN)', 'mapping keys are str without dots, values are leaves (not dicts); nested merge is C15',
+ASSUMPTIONS = ['elements are hashable; == is lawful except for NaN objects, which are covered through identity (a NaN object is a member of what holds it)', 'mapping keys are str without dots, values are leaves (not dicts); nested merge is C15',
                'callables passed to Dict.__call__ are plain functions with positional / defaulted / keyword-only parameters (no *args / **kwargs, no builtins or partials) and do not raise',
                "inherent name collisions of a dict subclass are outside the property: attribute access d.k for a key named like an attribute of dict / dictattr / Dict "
                "(keys, items, copy, ...) finds the method, and the KEYWORD spelling d.relabel(keys=...) / d.relabel(self=...) cannot name those two keys (the dict / affix / "
@@ -47,7 +47,14 @@ INCLUDE_SUBCLASS_OTHER = True     # generate Dict-family + user-subclass operand
 
 # ------------------------------------------------------------------ element coding (ulist)
 # further hashables, each equal only to itself (HOther t in the model)
-OTHERS = {1: float('inf'), 2: float('-inf'), 3: 0.5, 4: -1.5, 5: b'a', 6: frozenset({1}), 7: b'', 8: frozenset()}
+import decimal
+# 20-22: NaN OBJECTS (one shared float nan, a second float nan object, one Decimal nan): not == to themselves, but Python containers
+# test identity first (x is y or x == y), so each object is a member of what holds it and the model's "equal only to itself" is exact
+OTHERS = {1: float('inf'), 2: float('-inf'), 3: 0.5, 4: -1.5, 5: b'a', 6: frozenset({1}), 7: b'', 8: frozenset(),
+          20: float('nan'), 21: float('nan'), 22: decimal.Decimal('nan')}
+def eqm(x, y):
+    """membership equality of Python containers"""
+    return x is y or x == y
 
 def dec(e):
     if isinstance(e, dict):
@@ -62,7 +69,7 @@ def canon(x):
     if isinstance(x, bool): return ['b', int(x)]
     if isinstance(x, int): return x
     for t, o in OTHERS.items():
-        if type(o) is type(x) and o == x: return ['o', t]
+        if o is x or (type(o) is type(x) and o == x): return ['o', t]
     if isinstance(x, float): return ['f', int(x)]
     if isinstance(x, tuple): return ['t'] + [canon(y) for y in x]
     raise TypeError(x)
@@ -150,7 +157,7 @@ def same(a, b):
 def first_occ(l):
     out = []
     for x in l:
-        if not any(x == y for y in out):
+        if not any(eqm(x, y) for y in out):
             out.append(x)
     return out
 
@@ -176,13 +183,13 @@ def impl_ulist(case):
         r = {'+': lambda: u + other, '|': lambda: u | other, '-': lambda: u - other, '&': lambda: u & other}[op]()
     except Exception as e:
         return {'status': err_name(e), 'obs': ['ERR', err_name(e)], 'viol': 'ulist %s raised %s' % (op, type(e).__name__)}
-    if op in '+|': exp = u0 + [x for x in first_occ(ol) if not any(x == y for y in u0)]
-    elif op == '-': exp = [x for x in u0 if not any(x == y for y in ol)]
-    else: exp = [x for x in u0 if any(x == y for y in ol)]
+    if op in '+|': exp = u0 + [x for x in first_occ(ol) if not any(eqm(x, y) for y in u0)]
+    elif op == '-': exp = [x for x in u0 if not any(eqm(x, y) for y in ol)]
+    else: exp = [x for x in u0 if any(eqm(x, y) for y in ol)]
     if viol is None:
         if type(r) is not cls: viol = 'ulist %s returned a %s, not a %s' % (op, type(r).__name__, cls.__name__)
         elif list(r) != exp: viol = '%r %s %r = %r, expected %r' % (u0, op, other, list(r), exp)
-        elif any(r[i] == r[j] for i in range(len(r)) for j in range(i)): viol = 'result %r has duplicates' % (list(r),)
+        elif any(eqm(r[i], r[j]) for i in range(len(r)) for j in range(i)): viol = 'result %r has duplicates' % (list(r),)
         elif len(u) != len(u0) or not all(a is b for a, b in zip(u, u0)): viol = 'operand changed: %r -> %r' % (u0, list(u))
         elif 'elem' not in o and not (len(other) == len(ol) and all(a is b for a, b in zip(other, ol))): viol = 'other operand changed'
     return {'status': 'ok', 'obs': [[canon(x) for x in r], [canon(x) for x in u]], 'viol': viol}
@@ -411,8 +418,9 @@ def shape(case):
 # ------------------------------------------------------------------ generation
 POOL = [0, 1, 2, 3, -1, {'f': 0}, {'f': 1}, {'f': 2}, {'b': 0}, {'b': 1}, None, 'a', 'b', '1', '', 10 ** 20, -2 ** 63,
         {'o': 1}, {'o': 2}, {'o': 3}, {'o': 4}, {'o': 5}, {'o': 6}, {'o': 7}, {'o': 8}, {'t': [{'o': 3}, 1]},
+        {'o': 20}, {'o': 20}, {'o': 21}, {'o': 22}, {'t': [{'o': 20}, 1]}, {'t': [{'o': 21}, 1]},
         {'t': []}, {'t': [1]}, {'t': [1, 2]}, {'t': [{'f': 1}, 2]}, {'t': [{'b': 1}, 2]}, {'t': ['a']}, {'t': [{'t': [1]}, 2]}, {'t': [None]}]
-SMALL = [1, {'f': 1}, {'b': 1}, 2, 'a', {'t': [1, 2]}, {'t': [{'f': 1}, 2]}, None]
+SMALL = [1, {'f': 1}, {'b': 1}, 2, 'a', {'t': [1, 2]}, {'t': [{'f': 1}, 2]}, None, {'o': 20}, {'o': 20}]
 
 def gen_ulist(rng, tier):
     out = []
@@ -446,6 +454,16 @@ def gen_ulist(rng, tier):
                 for e in vals:
                     out.append({'kind': 'ulist', 'cls': 'ulist', 'raw': list(raw), 'op': op, 'other': {'elem': e}})
                 out.append({'kind': 'ulist', 'cls': 'ulist', 'raw': list(raw), 'op': op, 'other': {'list': [vals[2], vals[3], vals[0]]}})
+            out.append({'kind': 'ulist', 'cls': 'ulist', 'raw': list(raw), 'op': 'init'})
+    # NaN objects as elements: every list of length <= 3 over {nan A, nan B, Decimal nan, 1}, every operator, element and list operands
+    nans = [{'o': 20}, {'o': 21}, {'o': 22}, 1]
+    for n in range(0, 4):
+        for raw in itertools.product(nans, repeat=n):
+            if tier == 'quick' and n == 3 and rng.random() < 0.5: continue
+            for op in '+-&':
+                for e in nans[:3] if tier == 'quick' else nans:
+                    out.append({'kind': 'ulist', 'cls': 'ulist', 'raw': list(raw), 'op': op, 'other': {'elem': e}})
+                out.append({'kind': 'ulist', 'cls': 'ulist', 'raw': list(raw), 'op': op, 'other': {'list': [nans[0], nans[3], nans[2]]}})
             out.append({'kind': 'ulist', 'cls': 'ulist', 'raw': list(raw), 'op': 'init'})
     return out
 
